@@ -131,36 +131,40 @@ def isPlain (b : UInt8) : Bool :=
 
 def isBlank (b : UInt8) : Bool := b == 0x20 || b == 0x09
 
-/-- `shWordsAux fuel input cur inWord acc`.  `cur` is the word being built
-(reversed segments not needed: we append), `inWord` records whether a word has
-started (an empty `""` is still a word). Fuel = input length + 1 is enough, as
-every step consumes at least one byte. -/
-def shWordsAux : Nat → Bytes → Bytes → Bool → List Bytes → Option (List Bytes)
-  | 0, _, _, _, _ => none
-  | fuel + 1, inp, cur, inWord, acc =>
-    let flush : List Bytes := if inWord then acc ++ [cur] else acc
-    match inp with
-    | [] => some flush
-    | b :: r =>
-      if isBlank b then shWordsAux fuel r [] false flush
-      else if b == 0x5C then
-        match r with
-        | 0x0A :: r' => shWordsAux fuel r' cur inWord acc   -- line continuation
-        | _ => none
-      else if b == 0x22 then
-        match dqEvalBody r with
-        | some (v, rest) =>
-          if rest.length < r.length + 1 then shWordsAux fuel rest (cur ++ v) true acc else none
-        | none => none
-      else if isPlain b then shWordsAux fuel r (cur ++ [b]) true acc
-      else none
+/-- `shWordsAux input cur inWord acc`.  `cur` is the word being built, `inWord`
+records whether a word has started (an empty `""` is still a word), `acc` the
+finished words.  Well-founded on the input length: every step consumes at
+least one byte (the double-quote step is guarded accordingly). -/
+def shWordsAux (inp : Bytes) (cur : Bytes) (inWord : Bool) (acc : List Bytes) :
+    Option (List Bytes) :=
+  match inp with
+  | [] => some (if inWord then acc ++ [cur] else acc)
+  | b :: r =>
+    if isBlank b then shWordsAux r [] false (if inWord then acc ++ [cur] else acc)
+    else if b == 0x5C then
+      match r with
+      | c :: r' => if c == 0x0A then shWordsAux r' cur inWord acc else none  -- line continuation only
+      | [] => none
+    else if b == 0x22 then
+      match h : dqEvalBody r with
+      | some (v, rest) =>
+        if hlt : rest.length < r.length + 1 then shWordsAux rest (cur ++ v) true acc else none
+      | none => none
+    else if isPlain b then shWordsAux r (cur ++ [b]) true acc
+    else none
+termination_by inp.length
+decreasing_by
+  all_goals simp_wf
+  all_goals omega
 
-def shWords (inp : Bytes) : Option (List Bytes) :=
-  shWordsAux (inp.length + 1) inp [] false []
+def shWords (inp : Bytes) : Option (List Bytes) := shWordsAux inp [] false []
 
 /-! ## `formatArgs` -/
 
 def sep : Bytes := [0x20, 0x5C, 0x0A, 0x20, 0x20]   -- " \\\n  "
+
+/-- The word the shell must see for an assignment: `KEY=value`. -/
+def assignWord (kv : Bytes × Bytes) : Bytes := kv.1 ++ [0x3D] ++ kv.2
 
 def envStr (tbl : EscTable) (kv : Bytes × Bytes) : Bytes :=
   kv.1 ++ [0x3D] ++ quote tbl kv.2
